@@ -555,10 +555,9 @@ def evaluate(ctx, g, gs, ssx, rows):
                     m_d, m_occ, _a, ok, _f10 = next(mres)
                     md = model_pylog(m_d)
                     m_log += md or []
-                    if ok == "f":
-                        f21 = True
-                    if ok == "t" and md != model_pylog(m_occ):
-                        argenc.k1v(run, "model: dlog differs from occ_ser although ok_ty holds", rep, found_input=False)
+                    # ok == "f": F21 shape; fixed for input fields by /repo 1ef155d -> no routing any more
+                    if md != model_pylog(m_occ):
+                        argenc.k1v(run, "model: dlog differs from occ_ser", rep, found_input=False)
             run.dist("serialize_occurrences", "input-model-fields", len(exp))
             if r.get("exc") and r["exc"][0].startswith("args:"):
                 (run.finding if f21 else run.violation)(*((["F21-nonnull-list-nullable-items"] if f21 else []) +
